@@ -153,6 +153,31 @@ def dumps(res, ctx, rng):
                           f'{leaked[0][1]!r}', dict(case, removed=sorted(removed)))
             continue
         res.count('reduced_tables_checked')
+        # a supplied table that also holds ids with qualifier bits set (legal table text): events are looked up by their
+        # event id (qualifier bits cleared), never by the full debug id
+        odd = dict(reduced)
+        for e in evs[:40]:
+            odd[e.eventid | rng.randrange(1, 4)] = 'ODD_' + format(e.eventid, 'x')
+        try:
+            lst = front(data, odd, 'kevents')
+            trs_odd = front(data, odd, 'traces')
+        except Exception as x:
+            res.violation(f'c19-odd-ids-raises-{core.exc_name(x)}', f'{x!r}', case)
+            continue
+        bad = False
+        for e, shown in zip(evs, listing_names(lst)):
+            want = f'{odd[e.eventid]} ({hex(e.eventid)})' if e.eventid in odd else hex(e.eventid)
+            if shown != want:
+                res.violation('c19-listing-keyed-by-full-debugid', f'table holds ids with qualifier bits set; event '
+                              f'{hex(e.debugid)} listed as {shown!r}, expected {want!r} (lookup by event id)', case)
+                bad = True
+                break
+        if bad:
+            continue
+        if trs_odd != trs:
+            res.violation('c19-odd-ids-change-decoding', 'entries with qualifier bits set changed which traces are decoded', case)
+            continue
+        res.count('tables_with_qualifier_bit_ids_checked')
         # the caller's table object edited in place between requests: each request honours the table as it is then
         t = dict(bundled)
         try:
@@ -220,6 +245,7 @@ def run(ctx):
     res.require('reduced_tables_checked', 5)
     res.require('reassigned_tables_checked', 5)
     res.require('in_place_edits_checked', 5)
+    res.require('tables_with_qualifier_bit_ids_checked', 5)
     return res
 
 
